@@ -307,7 +307,8 @@ def check_passthrough(chk, prog, sim, name):
                         if g and g[0] == "S" and g[1] == Sym("t0"):
                             p = g[2]
                             if name == "FloatToQuantity":
-                                good = isinstance(p, Struct) and p.fields[0] == Sym("v0") and "self.unit" in repr(p.fields[1])
+                                from program import units_enabled
+                                good = isinstance(p, Struct) and p.fields[0] == Sym("v0") and ("self.unit" in repr(p.fields[1]) or not units_enabled(prog))
                             else:
                                 good = p == Sym("v0.value")
                     if not good:
